@@ -68,6 +68,12 @@ Qed.
 Lemma ssort_sorted l : ssorted (ssort l).
 Proof. induction l as [|a r IH]; cbn; [exact I|apply sinsert_sorted; exact IH]. Qed.
 
+Lemma ssort_nil vs : ssort vs = [] -> vs = [].
+Proof.
+  destruct vs as [|a r]; [reflexivity|]. intros H. exfalso.
+  assert (In a (ssort (a :: r))) as Hin by (apply ssort_in; left; reflexivity). rewrite H in Hin. exact Hin.
+Qed.
+
 Lemma scount_nonneg f l : (0 <= scount f l)%Z.
 Proof. induction l as [|a r IH]; cbn [scount]; [lia|destruct (f a); lia]. Qed.
 
